@@ -75,6 +75,14 @@ def handle (stdin stdout : IO.FS.Stream) (args : List String) : IO String := do
           let r := TestResults.fromErrors vs; showR (r.results.map (·.v)) r.total.v
       pure (impl ++ " ## " ++ showR vs (ResSpec.total vs))
     | none => pure "bad-request"
+  | ["fsum", bits] =>
+    -- float results (bit patterns): results in order and the left-fold total; NaN totals are printed as `nan`
+    match (bits.splitOn ",").mapM String.toNat? with
+    | some vs =>
+      let r := TestResults.fromFloats (vs.map Nat.toUInt64)
+      let t := if (Float.ofBits r.total).isNaN then "nan" else toString r.total.toNat
+      pure s!"r={",".intercalate (r.results.map fun b => toString b.toNat)} t={t}"
+    | none => pure "bad-request"
   | ["gen", d, c] =>
     match d.toNat?, parseInt? c with
     | some d, some c =>
